@@ -37,7 +37,7 @@ TOL = 1e-10
 def _configs(tier):
     # (supercell, icut, order, vacancy sites, with jump network?)
     if tier == 'quick':
-        return [('B2AB211sB', 2, 3, [None, 0, 1], [False, True]),
+        return [('B2AB211sB', 2, 3, [None, 0, 1], [False, True]), ('B2AB211m', 2, 3, [None, 2], [False, True]),
                 ('HCP211', 2, 3, [None, 0, 3], [False, True]),
                 ('FCC2I', 2, 3, [None, 5], [False, True])]
     return [('B2AB211sB', 2, 3, [None, 0, 1], [False, True]), ('B2AB211sA', 2, 3, [None, 1], [False, True]),
